@@ -14,8 +14,9 @@ Definition len (b : bytes) : N := N.of_nat (length b).
 
 (** Linear congruential generator shared with Go (hx.LCG):
     x' = (x * 1103515245 + 12345) mod 2^31, byte = (x' / 2^16) mod 256. *)
-Definition lcg_next (x : N) : N := (x * 1103515245 + 12345) mod 2147483648.
-Definition lcg_byte (x : N) : N := (x / 65536) mod 256.
+(* [land]/[shiftr] instead of [mod]/[/]: same function, an order of magnitude faster under vm_compute *)
+Definition lcg_next (x : N) : N := N.land (x * 1103515245 + 12345) 2147483647.
+Definition lcg_byte (x : N) : N := N.land (N.shiftr x 16) 255.
 
 Fixpoint gen_bytes_nat (n : nat) (x : N) : bytes :=
   match n with
@@ -24,10 +25,12 @@ Fixpoint gen_bytes_nat (n : nat) (x : N) : bytes :=
   end.
 Definition gen_bytes (n seed : N) : bytes := gen_bytes_nat (N.to_nat n) seed.
 
-(** Adler-32 style checksum shared with Go (hx.Sum). *)
+(** Adler-32 style checksum shared with Go (hx.Sum). [red65521 x = x mod 65521]
+    for x < 2*65521, which is all that occurs on bytes. *)
+Definition red65521 (x : N) : N := if 65521 <=? x then x - 65521 else x.
 Definition sum_step (st : N * N) (b : N) : N * N :=
-  let a := (fst st + b) mod 65521 in
-  let s := (snd st + a) mod 65521 in (a, s).
+  let a := red65521 (fst st + b) in
+  let s := red65521 (snd st + a) in (a, s).
 Definition checksum (b : bytes) : N :=
   let '(a, s) := fold_left sum_step b (1, 0) in s * 65536 + a.
 
